@@ -142,6 +142,9 @@ VARIANTS = {
     "lazy_stack": {"undef": ["ABT_CONFIG_DISABLE_LAZY_STACK_ALLOC"]},
     "no_pthread_barrier": {"undef": ["HAVE_PTHREAD_BARRIER_INIT"]},
     "no_linux_futex": {"undef": ["ABT_CONFIG_USE_LINUX_FUTEX"]},
+    "no_mem_pool": {"undef": ["ABT_CONFIG_USE_MEM_POOL"]},
+    "no_error_check": {"define": ["ABT_CONFIG_DISABLE_ERROR_CHECK"]},
+    "tool_interface": {"undef": ["ABT_CONFIG_DISABLE_TOOL_INTERFACE"]},
 }
 
 
